@@ -2,6 +2,7 @@
 SPECIFICATION Spec
 CONSTANTS
   Unchecked = {"cmd:BACKUP_STREAM"}
+  FullStar = FALSE
   MutEach = FALSE
   NoBodyAfterError = TRUE
   Roles = {"leader"}
